@@ -613,8 +613,9 @@ fn $name<const P: usize>(run: &mut Run, rng: &mut Rng) {
         if !bounds.is_empty() {
             for x in data.iter_mut() {
                 let b = bounds[rng.below(bounds.len() as u64) as usize];
-                let d = rng.below(600) as u32;
-                *x = if rng.chance(3, 4) { b.wrapping_sub(d) } else { b.wrapping_add(d) };
+                // (mostly within the last hundred-odd quantiles below a boundary)
+                let d = if rng.chance(3, 4) { rng.below(130) } else { rng.below(600) } as u32;
+                *x = if rng.chance(4, 5) { b.wrapping_sub(d) } else { b.wrapping_add(d) };
                 if P < 32 {
                     *x &= (1u32 << (P % 32)) - 1;
                 }
